@@ -162,7 +162,7 @@ int lbuf_wordbeg(struct lbuf *lb, int big, int dir, int *row, int *off)
 	if (lbuf_next(lb, dir, row, off))
 		return 1;
 	while (uc_isspace(lbuf_chr(lb, *row, *off))) {
-		nl += uc_code(lbuf_chr(lb, *row, *off)) == '\n';
+		nl = uc_code(lbuf_chr(lb, *row, *off)) == '\n' ? nl + 1 : 0;
 		if (nl == 2)
 			return 0;
 		if (lbuf_next(lb, dir, row, off))
@@ -183,7 +183,7 @@ int lbuf_wordend(struct lbuf *lb, int big, int dir, int *row, int *off)
 	while (uc_isspace(lbuf_chr(lb, *row, *off))) {
 		if (lbuf_next(lb, dir, row, off))
 			return 1;
-		nl += uc_code(lbuf_chr(lb, *row, *off)) == '\n';
+		nl = uc_code(lbuf_chr(lb, *row, *off)) == '\n' ? nl + 1 : 0;
 		if (nl == 2) {
 			if (dir < 0)
 				lbuf_next(lb, -dir, row, off);
